@@ -71,6 +71,7 @@ class Recorder:
         self.trace = []
         self.fault_at = None
         self.cls = None          # class under test (instances encode as VSelf)
+        self.early = []          # steps observed too early (see post_init)
 
     def reset(self, fault_at=None):
         self.trace = []
@@ -132,6 +133,11 @@ class FalsyCall:
 
     def __len__(self):
         return 0
+
+
+class FactorySub(attr.Factory):
+    """a strict subclass of attrs.Factory (attrs must recognise factories by isinstance, not by exact class)"""
+    __slots__ = ()
 
 
 def init_function(cls):
@@ -226,6 +232,12 @@ def mk_pre(kind, pos_names=(), kw_names=()):
 
 
 def post_init(self):
+    # what must NOT have happened yet when __attrs_post_init__ runs (C02: the steps after it come after it)
+    try:
+        object.__getattribute__(self, "_attrs_cached_hash")
+        REC.early.append("hash cache initialised before __attrs_post_init__ (%s)" % type(self).__name__)
+    except AttributeError:
+        pass
     REC.cb(("post",))
 
 
@@ -301,6 +313,8 @@ def gen_class_spec(rng, uid, base=None, hooks_ok=True, extras=False):
     if extras:
         for f in s["fields"]:
             # falsy callable objects wherever a callable is accepted
+            if f["default"] not in (None, "value") and rng.random() < 0.25:
+                f["factory_subclass"] = True
             if rng.random() < 0.2:
                 f["falsy"] = [r for r in ("factory", "converter", "validator", "hook") if rng.random() < 0.6]
                 if "converter" in f["falsy"] and f["converter"] is not None:
@@ -416,7 +430,8 @@ class ClassUnderTest:
                 if "factory" in f.get("falsy", ()) and not f["default"][1]:
                     kw["factory"] = fac                      # the factory= spelling
                 else:
-                    kw["default"] = attr.Factory(fac, takes_self=f["default"][1])
+                    fcls = FactorySub if f.get("factory_subclass") else attr.Factory
+                    kw["default"] = fcls(fac, takes_self=f["default"][1])
             if not f["init"]:
                 kw["init"] = False
             if f["kw_only"]:
